@@ -65,6 +65,14 @@ pub fn base_state(bytes: Vec<u8>) -> Result<State, String> {
 pub const N_OPS: usize = 12;
 pub const OPS: [&str; N_OPS] = ["nothing", "file-stored", "file-deflated", "dir", "file+extra", "raw-copy", "two-files", "symlink", "aligned-large", "bzip2-empty+utf8", "refused-call-only", "refused-call-then-file"];
 pub const COMMENTS: [&str; 3] = ["keep", "shorter", "longer"];
+/// comment actions 0..2 are the three above; 100 + n = replace by a comment of exactly n bytes
+pub fn cm_name(cm: usize) -> String {
+    if cm >= 100 {
+        format!("{} bytes", cm - 100)
+    } else {
+        COMMENTS[cm].to_string()
+    }
+}
 
 pub fn round_calls(op: usize, cm: usize, finish: bool, round: usize, seed: u64) -> (Vec<Call>, Vec<Exp>, Option<Vec<u8>>) {
     let mut calls = vec![];
@@ -75,6 +83,7 @@ pub fn round_calls(op: usize, cm: usize, finish: bool, round: usize, seed: u64) 
     let new_comment = match cm {
         1 => Some(b"x".to_vec()),
         2 => Some(b"a replaced and rather longer archive comment".to_vec()),
+        n if n >= 100 => Some((0..n - 100).map(|i| b"0123456789"[i % 10]).collect()),
         _ => None,
     };
     // the comment is set before the entries on even rounds and after on odd ones
@@ -155,7 +164,7 @@ pub fn step(s: &State, op: usize, cm: usize, finish: bool, round: usize, seed: u
         st.class("APPEND-CALL-FAILED");
         st.viol(
             format!("append/{kind}/{}/{}", names.get(i).copied().unwrap_or("?"), panic_site(&r.show())),
-            format!("base {base_label}, round {round} ({} / comment {} / {}): {} returned {}", OPS[op], COMMENTS[cm], if finish { "finish" } else { "drop" }, names.get(i).copied().unwrap_or("?"), r.show()),
+            format!("base {base_label}, round {round} ({} / comment {} / {}): {} returned {}", OPS[op], cm_name(cm), if finish { "finish" } else { "drop" }, names.get(i).copied().unwrap_or("?"), r.show()),
             case(),
             order,
         );
@@ -170,7 +179,7 @@ pub fn step(s: &State, op: usize, cm: usize, finish: bool, round: usize, seed: u
         ok = false;
         st.viol(
             format!("append/{what}/{}", if round == 0 { base_label.split(':').next().unwrap_or("") } else { "later-round" }),
-            format!("base {base_label}, after round {round} ({} / comment {} / {}): {detail}", OPS[op], COMMENTS[cm], if finish { "finish" } else { "drop" }),
+            format!("base {base_label}, after round {round} ({} / comment {} / {}): {detail}", OPS[op], cm_name(cm), if finish { "finish" } else { "drop" }),
             case(),
             order,
         );
@@ -355,10 +364,39 @@ fn cpython_bases() -> Vec<(String, Vec<u8>)> {
     v
 }
 
+pub fn delta_bases() -> Vec<(String, Vec<u8>)> {
+    let mut dbases: Vec<(String, Vec<u8>)> = vec![];
+    let c40: Vec<u8> = (0..40).map(|i| b"abcdefghij"[i % 10]).collect();
+    let small = |n: usize| {
+        let mut calls = vec![Call::SetComment(c40.clone())];
+        for i in 0..n {
+            calls.push(Call::StartFile { name: format!("d{i}"), opts: FOpts::m(0) });
+        }
+        if n < 10 {
+            calls.push(Call::Write(b"last entry's content".to_vec()));
+        }
+        calls.push(Call::Finish);
+        exec(&calls, &[]).1
+    };
+    dbases.push(("writer:2-entries+40-byte-comment".into(), small(2)));
+    dbases.push(("writer:65536-entries+40-byte-comment".into(), small(65536)));
+    {
+        use crate::reference::zipbuild::{build, ESpec, Spec};
+        dbases.push(("builder:zip64-eocd-forced+40-byte-comment".into(), build(&Spec { entries: vec![ESpec { name: b"z".to_vec(), method: 8, content: b"forced zip64 end records".to_vec(), ..Default::default() }], force_zip64_eocd: true, comment: c40.clone(), ..Default::default() }).0));
+    }
+    dbases
+}
+
 fn replay(case: &Value, st: &mut Stats, seed: u64) {
     let src = crate::props::c02::sources(seed);
-    let base = crate::util::unhex(case["base"].as_str().unwrap_or(""));
+    let mut base = crate::util::unhex(case["base"].as_str().unwrap_or(""));
     let label = case["base_label"].as_str().unwrap_or("replay").to_string();
+    if base.is_empty() {
+        // large bases are not stored in the replay file: rebuild them by label
+        if let Some(b) = delta_bases().into_iter().chain(bases(seed, true)).find(|b| b.0 == label) {
+            base = b.1;
+        }
+    }
     let mut s = match base_state(base) {
         Ok(s) => s,
         Err(e) => {
@@ -369,7 +407,7 @@ fn replay(case: &Value, st: &mut Stats, seed: u64) {
     let c = case.clone();
     for (r, h) in case["history"].as_array().cloned().unwrap_or_default().iter().enumerate() {
         let (op, cm, fin) = (h[0].as_u64().unwrap_or(0) as usize, h[1].as_u64().unwrap_or(0) as usize, h[2].as_bool().unwrap_or(true));
-        println!("  round {r}: {} / comment {} / {}", OPS[op], COMMENTS[cm], if fin { "finish" } else { "drop" });
+        println!("  round {r}: {} / comment {} / {}", OPS[op], cm_name(cm), if fin { "finish" } else { "drop" });
         let cc = c.clone();
         match step(&s, op, cm, fin, r, seed, &src, st, &move || cc.clone(), 0, &label) {
             Some(n) => s = n,
@@ -435,7 +473,7 @@ pub fn run(args: &Args) -> i32 {
                 }
             }
             if t == 77 {
-                st.sample(json!({"base": label, "history": hist.iter().chain(std::iter::once(&(op, cm, fin))).map(|x| format!("{}/{}/{}", OPS[x.0], COMMENTS[x.1], if x.2 { "finish" } else { "drop" })).collect::<Vec<_>>()}));
+                st.sample(json!({"base": label, "history": hist.iter().chain(std::iter::once(&(op, cm, fin))).map(|x| format!("{}/{}/{}", OPS[x.0], cm_name(x.1), if x.2 { "finish" } else { "drop" })).collect::<Vec<_>>()}));
             }
         });
         ctx.stats.merge(s);
@@ -449,6 +487,37 @@ pub fn run(args: &Args) -> i32 {
         ctx.stats.max_depth = r as u64 + 1;
         crate::diag!("  [C13] round {} done at {:.1}s ({} successor states)", r + 1, ctx.elapsed(), n.len());
         states = n;
+    }
+    // comment lengths swept one byte at a time around the old length: the new end structures end 0..40 bytes before / after
+    // the old end of the stream (stale bytes behind the new end record must never confuse a reader), on archives with and
+    // without ZIP64 end records
+    {
+        let dbases = delta_bases();
+        let mut dstates = vec![];
+        for (label, bytes) in &dbases {
+            match base_state(bytes.clone()) {
+                Ok(s) => dstates.push((label.clone(), s)),
+                Err(e) => ctx.machinery(format!("base {label} unusable: {e}")),
+            }
+        }
+        let lens: Vec<usize> = (0..=80).collect();
+        let (dstates_r, lens_r, src_r) = (&dstates, &lens, &src);
+        let s = par_for((dstates.len() * lens.len() * 2 * 2) as u64, 1, |t, st| {
+            let t = t as usize;
+            let fin = t % 2 == 0;
+            let op = if (t / 2) % 2 == 0 { 0 } else { 1 };
+            let l = lens_r[(t / 4) % lens_r.len()];
+            let (label, state) = &dstates_r[t / (4 * lens_r.len())];
+            // the 65536-entry base costs ~0.1 s per round: every length with (nothing, finish); the other three combinations
+            // at every fourth length
+            if !thorough && state.bytes.len() > 1 << 20 && (op != 0 || !fin) && l % 4 != 0 {
+                return;
+            }
+            let case = move || json!({"base_label": label, "base": if state.bytes.len() <= 4096 { hex(&state.bytes) } else { String::new() }, "history": [[op, 100 + l, fin]]});
+            step(state, op, 100 + l, fin, 0, seed, src_r, st, &case, (9u64 << 40) | t as u64, label);
+        });
+        ctx.stats.merge(s);
+        ctx.bound("comment_length_sweep", json!({"bases": dbases.iter().map(|b| b.0.clone()).collect::<Vec<_>>(), "old_comment": 40, "new_comment_lengths": "every length 0..=80", "ops": ["nothing", "file-stored"], "terminators": ["finish", "drop"]}));
     }
     ctx.stats.traces = ctx.stats.transitions;
     ctx.finish()
